@@ -45,6 +45,21 @@ def pegLine (toks : List String) : String :=
          if s.fuelOut then "diverge"
          else if ok then s!"ok {s.pos} {traceStr s.trace}" else s!"err {traceStr s.trace}"
      | none => "bad-op")
+  | ["pegleaks", cfg, src] =>
+    -- the rules in which a sequence failed after code had been written inside it (emit-then-fail sites), in order of occurrence
+    (match bytesOf src with
+     | some bs =>
+       let (flags, maxCnt) := pegFlags cfg
+       let env := pegEnv bs.toArray maxCnt
+       let (s, ok) := parseTop env flags 1000000
+       let ruleOf (id : Nat) : String :=
+         let idx := (List.range DS.Gen.Grammar.ruleStarts.size).foldl (fun acc i => if DS.Gen.Grammar.ruleStarts[i]! ≤ id then i else acc) 0
+         DS.Gen.Grammar.ruleNames[idx]!
+       let names := (s.leaks.reverse.map ruleOf).eraseDups
+       match s.broken with
+       | some w => "broken " ++ w
+       | none => (if ok then "ok " else "err ") ++ (if names.isEmpty then "-" else ",".intercalate names)
+     | none => "bad-op")
   | _ => "bad-op"
 
 
